@@ -590,7 +590,9 @@ structure MinMax where
   min : Int := 0
   max : Int := 0
   lastDepth : Nat := 0
-  offsets : List Int := [0]      -- head = most recently pushed
+  /-- per enclosing block: the lowest and the highest offset any of its repeats adds; head = most
+      recently pushed -/
+  offsets : List (Int × Int) := [(0, 0)]
 
 def popWhile (depth : Nat) (mm : MinMax) : MinMax :=
   -- `while depth < last_depth { pop; last_depth -= 1 }`
@@ -617,38 +619,49 @@ def sumChecked : List Int → Int → M Int
     | .error e => .error e
     | .ok v => sumChecked xs v
 
-/-- The min/max update for one addressed object: both ends of its own repeat, on top of the sum
-    of the enclosing blocks' offsets. -/
-def updMinMax (mm : MinMax) (address : Int) (rep : Repeat) : M MinMax :=
-  -- `address_offsets.iter().sum()` adds in insertion order (the stack is stored newest first)
-  match sumChecked mm.offsets.reverse 0 with
+/-- The min/max update for one addressed object: the lowest and the highest address its own repeat
+    reaches, on top of the lowest resp. highest sum of what the enclosing blocks' repeats add.
+    Returns the new state and the object's own (lowest, highest) — what a block pushes. -/
+def updMinMax (mm : MinMax) (address : Int) (rep : Repeat) : M (MinMax × Int × Int) :=
+  -- `address_offsets.iter().map(..).sum()` adds in insertion order (the stack is stored newest first)
+  match sumChecked (mm.offsets.map (·.1)).reverse 0 with
   | .error e => .error e
-  | .ok total =>
-    match ck (total + address) with
+  | .ok minOff =>
+    match sumChecked (mm.offsets.map (·.2)).reverse 0 with
     | .error e => .error e
-    | .ok a0 =>
+    | .ok maxOff =>
       match ck (countMinus1AsI64 rep.count * rep.stride) with
       | .error e => .error e
       | .ok span =>
-        match ck (a0 + span) with
+        match ck (address + Min.min span 0) with
         | .error e => .error e
-        | .ok aMax =>
-          .ok { mm with min := Min.min (Min.min mm.min a0) aMax, max := Max.max (Max.max mm.max a0) aMax }
+        | .ok lowest =>
+          match ck (address + Max.max span 0) with
+          | .error e => .error e
+          | .ok highest =>
+            match ck (minOff + lowest) with
+            | .error e => .error e
+            | .ok lo =>
+              match ck (maxOff + highest) with
+              | .error e => .error e
+              | .ok hi =>
+                .ok ({ mm with min := Min.min mm.min lo, max := Max.max mm.max hi }, lowest, highest)
 
-/-- "Push an offset because the next objects are gonna be deeper". -/
-def pushBlock (o : Object) (mm : MinMax) : MinMax :=
+/-- "Push the offsets because the next objects are gonna be deeper". -/
+def pushBlock (o : Object) (lowest highest : Int) (mm : MinMax) : MinMax :=
   match o with
-  | .block h _ => { mm with offsets := h.addressOffset :: mm.offsets, lastDepth := mm.lastDepth + 1 }
+  | .block _ _ => { mm with offsets := (lowest, highest) :: mm.offsets, lastDepth := mm.lastDepth + 1 }
   | _ => mm
 
 def minMaxStep (filter : Object → Bool) (mm : MinMax) (od : Object × Nat) : M MinMax :=
   let mm1 := popWhile od.2 mm
   if !filter od.1 then .ok mm1 else
-  match (match od.1.address with
-         | some address => updMinMax mm1 address (od.1.repeat_.getD ⟨1, 0⟩)
-         | none => .ok mm1) with
-  | .error e => .error e
-  | .ok mm2 => .ok (pushBlock od.1 mm2)
+  match od.1.address with
+  | some address =>
+    match updMinMax mm1 address (od.1.repeat_.getD ⟨1, 0⟩) with
+    | .error e => .error e
+    | .ok (mm2, lowest, highest) => .ok (pushBlock od.1 lowest highest mm2)
+  | none => .ok mm1
 
 /- `recurse_objects_with_depth` with the `find_min_max_addresses` callback: the callback sees an
    object (at its depth) before the object's children are visited one level deeper. -/
@@ -671,8 +684,8 @@ def mmWalkList (filter : Object → Bool) (depth : Nat) (mm : MinMax) : List Obj
 end
 
 /-- The analysed (min, max) address over the objects selected by `filter`. Enclosing blocks
-    contribute their `address_offset` but **not** their repeat stride; children behind a block
-    `ref` are not visited. Arithmetic is `i64` with overflow = panic. -/
+    contribute the lowest / highest of `address_offset + index × stride` over their repeat;
+    children behind a block `ref` are not visited. Arithmetic is `i64` with overflow = panic. -/
 def findMinMax (os : List Object) (filter : Object → Bool) : M (Int × Int) :=
   match mmWalkList filter 0 {} os with
   | .error e => .error e
